@@ -215,7 +215,8 @@ def run(ck):
             keys = {id(c): ("01" in s and "00" in s[1:]) for c, s in zip(cases, spec)}
             nt = lambda c: keys.get(id(c), False)
         else:
-            nt = lambda c: True
+            # exhaustive sweeps (every path <= 6 is asked): non-trivial = the right has at least one non-empty item
+            nt = lambda c: any(ch not in " ;" for ch in (c[2] if c[0] == 0 else c[1]))
         ck.stream(name, cases, "C16_run", "C16", "C16_ok", nontrivial=nt, sig=sig, sample=2, timeout=1800)
         pairs += npairs(cases)
 
@@ -238,7 +239,8 @@ def run(ck):
     if ck.thorough:
         # exhaustive small scope: rights <= 5, paths <= 6 over reduced alphabets (every pair, no sampling)
         total = 0
-        for ra, rp in (("a+*/;", "ab/"), ("aA /*", "aA /"), ("a +;/", "a +/"), ("ab*/;", "ab*/")):
+        # wildcards and lists | case and blanks | '+' with blanks and lists, literal '+' in paths | literal '*' in paths
+        for ra, rp in (("a+*/;", "ab/"), ("aA /*", "aA /"), ("a +;/", "a+/"), ("ab*/;", "a*/")):
             cases, nr, np_ = exhaustive_cases(ra, 5, rp, 6, rng)
             go("exhaustive[%s|%s]" % (ra, rp), cases, classify=False)
             total += nr * np_
@@ -251,7 +253,6 @@ def run(ck):
         cases, nr, np_ = exhaustive_cases("a+*/;", 3, "aA/ ", 4, rng)
         go("exhaustive_small", cases)
     ck.extra["pairs"] = pairs
-    ck.count(0)
     return ck.finish(
         rule="one case = one right string (via auth.Save/Get/ValidatePermission, as push and as pull right) or one bare "
              "pattern (NewPathMatcher.Match) asked about 40-1200 paths; structured stream: ';'-lists of patterns with "
@@ -259,7 +260,7 @@ def run(ck):
              "from the patterns (wildcards instantiated, case flipped, then a segment dropped/added/changed); malformed "
              "stream: random strings over {letters both cases,+,*,/,;,space} (+ a little other ASCII); exhaustive small "
              "scope (thorough: all rights <=5 x all paths <=6 over four reduced alphabets). Non-trivial = the documented "
-             "language permits some and refuses some of the case's paths. Evaluations count cases; coverage.pairs counts "
+             "language permits some and refuses some of the case's paths (exhaustive sweeps: the right has a non-empty item). Evaluations count cases; coverage.pairs counts "
              "(right,path) pairs.",
         trusted=["strings.ToLower/Trim/TrimSpace/Split/IndexRune and unicode.IsSpace are modelled on ASCII bytes only"],
         assumptions=["ASCII right strings and paths (Go lower-cases and trims by rune; the byte model does not cover non-ASCII)",
